@@ -489,14 +489,14 @@ func TestVerifC15(t *testing.T) {
 	}
 	_ = start
 	// two subscriptions of one owner (zz_verif_c15_two_test.go)
-	two := c15TwoTemplates(vrep.Thorough())
+	two := c15ExtraScenarios(vrep.Thorough())
 	for i, tp := range two {
 		left := time.Until(vrep.Deadline())
 		share := left / time.Duration(len(two)-i)
 		if share < 5*time.Second {
 			share = 5 * time.Second
 		}
-		sc := &vs.Scenario{Name: tp.Name, Body: c15TwoBody(tp), LeakIsViolation: true, LeakKey: "deadlock",
+		sc := &vs.Scenario{Name: tp.Name, Body: tp.Body, LeakIsViolation: true, LeakKey: "deadlock",
 			Opt: vs.Options{Horizon: 4 * time.Second, IdleStep: time.Second, MaxSteps: 3000}}
 		vs.Explore(t, sc, vs.Config{MaxBound: bound, Deadline: time.Now().Add(share), ShardI: si, ShardN: sn, Property: "C15"}, r)
 	}
@@ -517,9 +517,9 @@ func c15Replay(t *testing.T, path string, tps []c15Tmpl) {
 			return
 		}
 	}
-	for _, tp := range c15TwoTemplates(true) {
+	for _, tp := range c15ExtraScenarios(true) {
 		if tp.Name == rp.Scenario {
-			sc := &vs.Scenario{Name: tp.Name, Body: c15TwoBody(tp), LeakIsViolation: true, LeakKey: "deadlock",
+			sc := &vs.Scenario{Name: tp.Name, Body: tp.Body, LeakIsViolation: true, LeakKey: "deadlock",
 				Opt: vs.Options{Horizon: 4 * time.Second, IdleStep: time.Second, MaxSteps: 3000}}
 			x := vs.Replay(t, sc, rp.Choices)
 			fmt.Fprintf(os.Stdout, "REPLAY %s choices=%v\n%s\nverdict: key=%q %s\npanic=%s outcome=%s\n", tp.Name, rp.Choices, strings.Join(x.S.Log, "\n"), x.VioKey, x.VioDesc, x.Panic, x.Outcome)
